@@ -12,19 +12,24 @@ MANIFEST = {
                  "run on every answer of the real allocator",
     "text": "Model/JitAlloc.lean transcribes jitallocator.cpp (bit vectors, search window, incremental mode, pools, block sizing, "
             "release/shrink/query/reset/statistics, fill pattern, write with truncation). Props/C09.lean proves, for every history of "
-            "operations and every configuration, the invariant that ties the used/stop bit vectors, the counters and the flags to the "
-            "table of spans the caller holds, and from it: spans are inside their block, granule aligned, at least as large as requested, "
-            "pairwise disjoint, the padding granule is never handed out, release/shrink/query find exactly the span, statistics equal the "
-            "live spans, reset leaves nothing accounted. The model is tied to the real code by running both on bounded-exhaustive and seeded "
-            "random histories (all option sets, granularities, block sizes) comparing every answer, the statistics after every operation and "
-            "the private block state; Spec/JitAlloc.lean (independent ghost-table monitor: disjointness, alignment, size, contents, fill "
-            "pattern, query sweep, statistics, reusability, retention policy, foreign pointers, initialised flag) judges every answer of the "
-            "real allocator.",
+            "operations and every configuration (induction over the history, no bound): the invariant that ties the used/stop bit vectors, "
+            "area_used, kFlagEmpty/kFlagIncremental and the search window/cache to the table of spans the caller holds "
+            "(inv_all_histories, bitvectors_exact, block_accounting_exact, window_all_histories); live spans are pairwise disjoint, granule "
+            "aligned, inside their block, never in the padding granule (live_spans_disjoint, live_span_wellformed, alloc_span_fresh); "
+            "allocation succeeds with size >= request (alloc_ok); release frees exactly the span (release_ok); query of any address of a "
+            "live span returns exactly that span (query_exact); allocation_count = number of live spans (allocation_count_exact); free "
+            "memory is reused: no new block while a block of the serving pool has room, wherever the gap is (free_memory_reused); unknown "
+            "blocks and stale spans are rejected without state change; reset leaves nothing accounted; is_initialized is true. The model is "
+            "tied to the real code by running both on bounded-exhaustive and seeded random histories (all option sets, granularities, block "
+            "sizes) comparing every answer, the statistics after every operation and the private block state; Spec/JitAlloc.lean "
+            "(independent ghost-table monitor: disjointness, alignment, size, contents, fill pattern, query sweep, statistics, reusability, "
+            "retention policy, foreign pointers, initialised flag) judges every answer of the real allocator.",
     "note": "Trusted: Lean kernel; Spec/JitAlloc.lean as the meaning of the property (padding granule = span reserved by the allocator); "
             "the harness/driver/diff. OS behaviour is only tested (mmap/dual mapping give fresh page-aligned disjoint ranges, rw aliases rx; the "
             "harness checks both on every block), large pages are never granted in the sandbox, thread safety is C11. The RB tree lookup is "
             "modelled as lookup by block id (C18). Sizes near 2^64 (overflow exits) are not modelled. Memory is modelled per granule "
-            "(whole-granule writes only).",
+            "(whole-granule writes only). Proved only partially: pool totals (used/reserved/block count as sums), the retention policy and "
+            "memory contents / fill pattern are covered by the correspondence and the monitor, not by theorems.",
 }
 MODS = ["AsmjitVerif.Props.C09"]
 
